@@ -49,7 +49,7 @@ PROP = dict(
     technique="T2: translator-regenerated transaction skeletons + Lean 4 theorem by decide over the complete table",
     translators=[tr_txskel],
     modules=["TinodeVerif.Props.C18"],
-    theorems=[T + n for n in ["wf_atomic", "all_skeletons_wf", "operations_present"]],
+    theorems=[T + n for n in ["wf_atomic", "all_skeletons_wf", "operations_present", "tolerated_ok"]],
     streams=[],
     extra=[search],
     seeds=dict(quick=1, thorough=1),
